@@ -20,6 +20,12 @@ import Gotree.Lemmas.C16Surj2
 import Gotree.Lemmas.C16Surj3
 import Gotree.Lemmas.C16Depth
 import Gotree.Lemmas.C16Cli
+import Gotree.Lemmas.C16Table
+import Gotree.Lemmas.C16CliRun
+import Gotree.Lemmas.C16TopoCli
+import Gotree.Lemmas.C16Opts
+import Gotree.Lemmas.C16DepthGo
+import Gotree.Gen.C16Source
 
 namespace Gotree.C16
 open Gotree
@@ -158,6 +164,18 @@ theorem downDepth_rule (d : NodeD) (p : Nat) (k : EdgeD × T) (ks : Kids) :
     simp only [downDepth, hm, Option.getD_some]
     have := hle et het; omega
   · exact ⟨w, hw, by simp only [downDepth, hm, Option.getD_some, hwm]⟩
+
+/-- `computeDepthRecurRooted` (model `goDepthR`, the Go recursion with its `-1` sentinel, statement by
+    statement) leaves in every node of a rooted tree the specified depth: the list read back with
+    `Node.Depth()` in `Nodes()` order passes the depth oracle -/
+theorem computeDepths_rooted_meets_spec (t : T) (h : t.rooted = true) :
+    goComputeDepthsRooted t = (depthsOf t).map (fun (x : Nat) => (x : Int)) ∧ depthsOK t (goComputeDepthsRooted t) = true := by
+  have h1 : goComputeDepthsRooted t = (depthsOf t).map (fun (x : Nat) => (x : Int)) := by
+    rw [goComputeDepthsRooted_eq]; simp [depthsOf, h]
+  exact ⟨h1, by simp [depthsOK, h1]⟩
+
+example : (T.node ⟨"", []⟩ 0 [(EdgeD.blank, T.leaf "a"), (EdgeD.blank, .node ⟨"", []⟩ 0 [(EdgeD.blank, T.leaf "b"), (EdgeD.blank, T.leaf "c")])]).rooted = true := by
+  decide
 
 /-! ### gen_rejects -/
 
@@ -614,6 +632,200 @@ theorem extra_rejections (names left right : List String) (tin : T) :
     (starFromTree tin).isErr = startMustReject tin ∧
     (bipartitionTree left right).isErr = bipartMustReject left right :=
   ⟨starFromNames_isErr_iff names, starFromTree_isErr_iff tin, bipartitionTree_isErr_iff left right⟩
+
+/-! ### the command loop (`uniformTree` … `starTree` of cmd/*.go; model `genCli`) -/
+
+/-- the call the command makes for its `i`-th tree, with the `i`-th block of draws -/
+def cliCall (g : GenKind) (n : Int) (rooted : Bool) (ints : Nat → List Nat) (lens : Nat → List Rat) (i : Nat) : Res Out :=
+  if g == .star then starCli n (lens i) else run g n rooted (ints i) (lens i)
+
+/-- `gotree generate <cmd>` with a valid size, a creatable output and admissible draws: exit status 0,
+    nothing logged, exactly the requested number of trees, every one of them passing the oracle
+    predicate of the library call -/
+theorem generate_cli_ok (g : GenKind) (n : Nat) (rooted : Bool) (r : GenReq) (ints : Nat → List Nat) (lens : Nat → List Rat)
+    (h : g.min rooted ≤ n) (hd : ∀ i, drawsInRange g n rooted (ints i) = true) (hl : ∀ i, lensNonneg (lens i) = true)
+    (hs : g = .star → rooted = false) :
+    let out := genCli r true (cliCall g n rooted ints lens)
+    out.exit = 0 ∧ out.logged = false ∧ out.trees.length = r.nbtrees.toNat ∧
+    ∀ t ∈ out.trees, genTreeOK2 g n rooted t = true := by
+  have hok : ∀ i, ∃ o, cliCall g n rooted ints lens i = .ok o ∧ genTreeOK2 g n rooted o.t = true := by
+    intro i
+    by_cases hg : g = .star
+    · subst hg
+      have h2 : 2 ≤ n := by simpa [GenKind.min] using h
+      obtain ⟨o, h1, h3, _⟩ := starCli_ok n (lens i) h2 (hl i)
+      rw [hs rfl]
+      exact ⟨o, by simp [cliCall, h1], h3⟩
+    · obtain ⟨o, h1, h3⟩ := gen_meets_oracle2 g n rooted (ints i) (lens i) h (hd i) (hl i)
+      exact ⟨o, by simp [cliCall, hg, h1], h3⟩
+  have hall : ∀ j, j < r.nbtrees.toNat → (cliCall g n rooted ints lens j).isOk = true := by
+    intro j _
+    obtain ⟨o, h1, _⟩ := hok j
+    rw [h1]; rfl
+  have hloop := cliLoop_all_ok (cliCall g n rooted ints lens) r.nbtrees.toNat 0 [] (fun j _ h2 => hall j (by omega))
+  simp only [genCli, Bool.not_true, Bool.and_false, Bool.false_eq_true, if_false]
+  refine ⟨hloop.1, hloop.2.1, by simpa using hloop.2.2, ?_⟩
+  intro t ht
+  obtain ⟨j, o, _, hj, ho⟩ := cliLoop_mem _ _ hall t ht
+  obtain ⟨o', h1, h3⟩ := hok j
+  rw [hj] at h1
+  cases h1
+  rw [← ho]; exact h3
+
+/-- a rejected size with at least one tree asked for: the first call fails, nothing is written, the
+    error is logged and the exit status is 1 (`RunE`, table row `entry`) -/
+theorem generate_cli_rejects (g : GenKind) (n : Int) (rooted : Bool) (r : GenReq) (creatable : Bool)
+    (ints : Nat → List Nat) (lens : Nat → List Rat)
+    (h : n < (g.min rooted : Int)) (hn : 0 < r.nbtrees) :
+    genCli r creatable (cliCall g n rooted ints lens) = ⟨1, true, []⟩ := by
+  unfold genCli
+  split
+  · rfl
+  · have hf : (cliCall g n rooted ints lens 0).isOk = false := by
+      by_cases hg : g = .star
+      · subst hg
+        have : n < 2 := by simpa [GenKind.min] using h
+        simp [cliCall, starCli, this, Res.isOk]
+      · have := gen_rejects g n rooted (ints 0) (lens 0) h
+        simp only [cliCall, hg, beq_iff_eq, if_false]
+        cases hr : run g n rooted (ints 0) (lens 0) with
+        | ok o => rw [hr] at this; simp [Res.isErr] at this
+        | err m => rfl
+        | panic m => rfl
+    obtain ⟨k, hk⟩ : ∃ k, r.nbtrees.toNat = k + 1 := ⟨r.nbtrees.toNat - 1, by omega⟩
+    rw [hk]
+    exact cliLoop_first_fails _ k 0 hf
+
+/-- an output file that cannot be created: the error is returned before any generator call -/
+theorem generate_cli_uncreatable (r : GenReq) (gen : Nat → Res Out) (h : r.toFile = true) :
+    genCli r false gen = ⟨1, true, []⟩ := by
+  simp [genCli, h]
+
+/-- zero (or a negative number of) trees asked for: the loop body never runs — nothing is written,
+    nothing is rejected, whatever the size -/
+theorem generate_cli_zero (r : GenReq) (gen : Nat → Res Out) (h : r.nbtrees ≤ 0) :
+    genCli r true gen = ⟨0, false, []⟩ := by
+  have : r.nbtrees.toNat = 0 := by omega
+  simp [genCli, this, cliLoop]
+
+example : GenKind.yule.min true ≤ 5 ∧ (∀ _i : Nat, drawsInRange .yule 5 true [1, 2, 0] = true) ∧
+    (⟨5, true, 2, "stdout", some 7, 1⟩ : GenReq).nbtrees.toNat = 2 :=
+  ⟨by decide, fun _ => by decide, by decide⟩
+
+/-! ### the command `generate topologies` (model `topoCli`) -/
+
+/-- without `-i`: a valid `-l n` and an output that can be opened: exit status 0, nothing logged, the
+    (2n-5)!! / (2n-3)!! trees of the enumeration are written -/
+theorem topologies_cli_ok (n : Nat) (rooted : Bool) (h : (if rooted then 2 else 3) ≤ n) :
+    ∃ ts, topoCli (n : Int) rooted .absent true = ⟨0, false, ts⟩ ∧ allTopologies (n : Int) rooted [] = .ok ts ∧
+      ts.length = if rooted then dfact (2 * n - 3) else dfact (2 * n - 5) := by
+  obtain ⟨ts, h1, hc⟩ := allTopologies_count n rooted [] h (Or.inl rfl)
+  exact ⟨ts, topoCli_of_ok _ rooted .absent ts (by intro h; cases h) h1, h1, hc⟩
+
+/-- with `-i`: the number of tips is the number of tip names of the input tree, whatever `-l` says -/
+theorem topologies_cli_ok_names (l : List String) (m : Int) (rooted : Bool) (h : (if rooted then 2 else 3) ≤ l.length) :
+    ∃ ts, topoCli m rooted (.names l) true = ⟨0, false, ts⟩ ∧ allTopologies (l.length : Int) rooted l = .ok ts ∧
+      ts.length = if rooted then dfact (2 * l.length - 3) else dfact (2 * l.length - 5) := by
+  obtain ⟨ts, h1, hc⟩ := allTopologies_count l.length rooted l h (Or.inr rfl)
+  exact ⟨ts, topoCli_of_ok m rooted (.names l) ts (by intro h; cases h) h1, h1, hc⟩
+
+/-- every failure ends with exit status 1, an error logged and nothing written: a size below the
+    minimum (taken from `-l`, or from the input tree when `-i` is given), an input that cannot be read,
+    an output that cannot be opened -/
+theorem topologies_cli_rejects (n : Int) (rooted : Bool) (inp : TopoInput) (creatable : Bool)
+    (h : (inp.args n).1 < (if rooted then 2 else 3) ∨ inp = .unreadable ∨ creatable = false) :
+    topoCli n rooted inp creatable = ⟨1, true, []⟩ := by
+  rcases h with h | h | h
+  · exact topoCli_of_err n rooted inp creatable (allTopologies_rejects _ rooted _ (Or.inl h))
+  · subst h; rfl
+  · subst h; exact topoCli_uncreatable n rooted inp
+
+example : (if true then 2 else 3) ≤ ["A", "b_2", "10"].length := by decide
+
+/-! ### the option model (`parseGenArgs`): what it computes -/
+
+/-- no option: the defaults — 10 tips (depth 3 for balancedtree), one tree, unrooted, standard output, no seed -/
+theorem options_defaults (bal : Bool) :
+    parseGenArgs bal [] (GenReq.default bal) = some (GenReq.default bal) ∧
+    (GenReq.default bal).size = (if bal then 3 else 10) ∧ (GenReq.default bal).nbtrees = 1 ∧
+    (GenReq.default bal).rooted = false ∧ (GenReq.default bal).toFile = false ∧ (GenReq.default bal).seed = none := by
+  refine ⟨parseGenArgs_nil bal _, ?_⟩
+  cases bal <;> decide
+
+/-- a value option spelled in two words sets its field; the remaining words are read from there -/
+theorem options_value_step (bal : Bool) (f v : String) (rest : List String) (r : GenReq) (k : FlagKind)
+    (hs : splitFlag f = (f, none)) (hk : flagKind bal f = k) (hr : k ≠ .rooted) (hu : k ≠ .unknown) :
+    parseGenArgs bal (f :: v :: rest) r = (setFlag k v r).bind (parseGenArgs bal rest) :=
+  parseGenArgs_value_step bal f v rest r k hs hk hr hu
+
+/-- `-r` / `--rooted` consumes one word -/
+theorem options_rooted_step (bal : Bool) (f : String) (rest : List String) (r : GenReq)
+    (hs : splitFlag f = (f, none)) (hk : flagKind bal f = .rooted) :
+    parseGenArgs bal (f :: rest) r = parseGenArgs bal rest { r with rooted := true } :=
+  parseGenArgs_rooted_step bal f rest r hs hk
+
+/-- the size option given twice: the last one counts -/
+theorem options_size_twice_last_counts (bal : Bool) (f v1 v2 : String) (rest : List String) (r : GenReq) (x1 x2 : Int)
+    (hs : splitFlag f = (f, none)) (hk : flagKind bal f = .size) (h1 : v1.toInt? = some x1) (h2 : v2.toInt? = some x2) :
+    parseGenArgs bal (f :: v1 :: f :: v2 :: rest) r = parseGenArgs bal (f :: v2 :: rest) r :=
+  parseGenArgs_size_twice bal f v1 v2 rest r x1 x2 hs hk h1 h2
+
+/-- a word that is not an option of the command is a usage error -/
+theorem options_unknown_is_usage_error (bal : Bool) (f : String) (rest : List String) (r : GenReq)
+    (hk : flagKind bal (splitFlag f).1 = .unknown) : parseGenArgs bal (f :: rest) r = none :=
+  parseGenArgs_unknown bal f rest r hk
+
+/-! ### facts about the source, regenerated on every run (`harness/c16/extract.go` → `Gotree/Gen/C16Source.lean`)
+
+   The hand-written model assumes: the leading rejections of the six generator functions (operator,
+   bound, rootedness condition, message, order), the rate of every `gostats.Exp` call (the harness
+   replays the draws with it), the options of `gotree generate …` (names, shorthands, defaults,
+   variables), which library function each command calls and that its error reaches the exit status
+   (`RunE`), and the two spellings of "standard output".  Each is re-decided here against the table
+   extracted from the working tree; when a decision fails the cases still run, so that the oracle can
+   exhibit a failing input (a guard moved from 3 to 4 rejects the valid size 3, …). -/
+
+/-- the guards of tree/treegen.go are the ones the model was written from (the source text of the
+    conditions is not compared: `depth < 2 && !rooted` and `!rooted && depth < 2` are the same row) -/
+theorem sourceGuardsCheck : Gotree.Gen.C16.guards.map Guard.sem = expectedGuards.map Guard.sem := by decide
+
+/-- what the extracted guards MEAN is what the model does: for every generator, size, rootedness and
+    draws, when a leading `if` of the source fires the model returns that error with that message,
+    and when none fires the size is at least `GenKind.min` (so `gen_ok` applies) -/
+theorem source_guards_decide_as_model (g : GenKind) (n : Int) (rooted : Bool) (ints : List Nat) (lens : List Rat) :
+    match firstFiring (guardsOf Gotree.Gen.C16.guards g.goName) n rooted with
+    | some m => run g n rooted ints lens = .err m
+    | none => (g.min rooted : Int) ≤ n := by
+  rw [firstFiring_congr _ _ sourceGuardsCheck]
+  have h := expected_guards_model g n rooted ints lens
+  revert h
+  cases firstFiring (guardsOf expectedGuards g.goName) n rooted <;> exact id
+
+/-- the same for the size guards of the enumerator -/
+theorem source_guards_decide_as_model_topo (n : Int) (rooted : Bool) (names : List String) :
+    match firstFiring (guardsOf Gotree.Gen.C16.guards "AllTopologies") n rooted with
+    | some m => allTopologies n rooted names = .err m
+    | none => ((if rooted then 2 else 3 : Nat) : Int) ≤ n := by
+  rw [firstFiring_congr _ _ sourceGuardsCheck]
+  exact expected_guards_topo n rooted names
+
+/-- every `gostats.Exp` of the generators and of `generate startree` has rate 10 -/
+theorem sourceRatesCheck : Gotree.Gen.C16.rates = expectedRates := by decide
+
+/-- the options of the generate commands are the ones of the option model: every row of the
+    extracted table is the expected one, and each expected row agrees with `flagKind` (both
+    spellings) and `GenReq.default` -/
+theorem sourceFlagsCheck :
+    Gotree.Gen.C16.flags = expectedFlags ∧ (genFlags expectedFlags).all Flag.agrees = true := by
+  constructor
+  · decide
+  · decide +kernel
+
+/-- each command calls the generator the model runs for it, through `RunE`; "stdout" and "-" are the
+    two names of standard output -/
+theorem sourceCallsCheck :
+    sameFacts Gotree.Gen.C16.calls expectedCalls = true ∧ sameFacts Gotree.Gen.C16.outputs expectedOutputs = true := by
+  decide +kernel
 
 /-! ### pinned variants: the repaired defects, as theorems about the old behaviour -/
 
